@@ -336,7 +336,101 @@ func outsideFamily(schema any) string {
 	if _, ok := s["default"]; ok {
 		return "default on the root schema"
 	}
+	if k := unknownKeyword(schema); k != "" {
+		// A published schema may come to use keywords this oracle does not model ($defs/$ref, format, ...): that
+		// is not a violation of C16, the case is outside the family the oracle can decide.
+		return "keyword " + k + " not modelled by the oracle"
+	}
 	return outsideFamilyRec(s)
+}
+
+// unknownKeyword returns a keyword used anywhere in schema that the validator does not know ("" if none),
+// or a description of a construct it cannot read (tuple-form items, odd type keyword).
+func unknownKeyword(schema any) string {
+	s, ok := schema.(map[string]any)
+	if !ok {
+		if _, isBool := schema.(bool); isBool {
+			return ""
+		}
+		return fmt.Sprintf("schema of JSON type %T", schema)
+	}
+	for _, k := range sortedKeys(s) {
+		if !validationKW[k] && !annotationKW[k] {
+			return k
+		}
+	}
+	switch t := s["type"].(type) {
+	case nil, string:
+	case []any:
+		for _, e := range t {
+			if _, ok := e.(string); !ok {
+				return "type (odd form)"
+			}
+		}
+	default:
+		return "type (odd form)"
+	}
+	if props, ok := s["properties"]; ok {
+		pm, ok := props.(map[string]any)
+		if !ok {
+			return "properties (odd form)"
+		}
+		for _, k := range sortedKeys(pm) {
+			if r := unknownKeyword(pm[k]); r != "" {
+				return r
+			}
+		}
+	}
+	for _, k := range []string{"items", "additionalProperties", "not"} {
+		if sub, ok := s[k]; ok {
+			if _, tuple := sub.([]any); tuple {
+				return k + " (tuple form)"
+			}
+			if r := unknownKeyword(sub); r != "" {
+				return r
+			}
+		}
+	}
+	return ""
+}
+
+// coerceNulls returns v with every null that sits where the schema wants an object or an array (and does not
+// admit null) replaced by {} or []; changed reports whether anything was replaced below the root.
+func coerceNulls(schema any, v any, root bool, changed *bool) any {
+	s, ok := schema.(map[string]any)
+	if !ok {
+		return v
+	}
+	if v == nil && !root {
+		ts := schemaTypes(s)
+		if len(ts) == 1 && ts[0] == "object" {
+			*changed = true
+			return map[string]any{}
+		}
+		if len(ts) == 1 && ts[0] == "array" {
+			*changed = true
+			return []any{}
+		}
+		return v
+	}
+	switch x := v.(type) {
+	case map[string]any:
+		props, _ := s["properties"].(map[string]any)
+		for _, k := range sortedKeys(x) {
+			if sub, ok := props[k]; ok {
+				x[k] = coerceNulls(sub, x[k], false, changed)
+			} else if ap, ok := s["additionalProperties"].(map[string]any); ok {
+				x[k] = coerceNulls(ap, x[k], false, changed)
+			}
+		}
+	case []any:
+		if it, ok := s["items"]; ok {
+			for i := range x {
+				x[i] = coerceNulls(it, x[i], false, changed)
+			}
+		}
+	}
+	return v
 }
 
 func outsideFamilyRec(s map[string]any) string {
